@@ -8,6 +8,12 @@ CLAIMED = {
          "Grey-level laws, duality and top-hat identities are evaluated on the implementation's outputs; all seven public functions "
          "are compared with the extracted model on generated inputs",
          "Rocq proof (Galois adjunction) + translator + differential correspondence"),
+ "C06": ("proof", "Coq theorems: the translated fix_offset equals the mathematical border rule in all six modes (for all "
+         "coordinates and lengths) and the generic convolution model equals the defining sum for any dimension and kernel shape; "
+         "the model (incl. an executable model of the native 1-D fast-path loops) is run against the fresh build in the regime "
+         "where double arithmetic is exact, over dtypes, layouts, modes, every axis (+/-) and both convolve1d paths; Gaussian "
+         "filters are compared with convolve1d chains using the documented weights (tolerance, support only)",
+         "Rocq proof + translator + differential correspondence (exact-arithmetic regime)"),
  "C01": ("proof", "Coq theorems (all dims/dtypes/elements) about an executable model whose scalar kernels "
          "(fix_offset, erode_sub, dilate_add) are re-translated from the C++ on every run: erosion = lattice definition at every "
          "pixel, saturation laws for every width, scatter-dilation = max of contributions; the model is run (extracted OCaml) "
